@@ -250,6 +250,10 @@ class ElementParser:
                 children = self.queue[pos:]
                 del self.queue[pos:]
                 break
+            # A start tag that was never closed: the scope of its
+            # namespace declarations ends here, too
+            if len(self.namespaces) > 1:
+                self.namespaces.pop()
         else:
             raise ParseError("Unexpected end tag.", token)
 
